@@ -16,7 +16,7 @@ bs=<num> bsh=<int> bf=<int> hw=<num> vw=<num> fb=true|false
 enc=none | <hexname>,…(256)
 glyphs=<glyph>|<glyph>|…                                        sorted by name (bytewise)
    <glyph> = <hexname>:w=<num>,<num>:hs=<ints>:vs=<ints>:c=<cmd>;<cmd>;…      (`-` for an empty list)
-   <cmd>   = m/<num>/<num>  l/<num>/<num>  c/<num>/<num>/<num>/<num>/<num>/<num>  z
+   <cmd>   = m_<num>_<num>  l_<num>_<num>  c_<num>_<num>_<num>_<num>_<num>_<num>  z
 ```
 
 `<num>` is the exact value of the `float64`: an integer `n`, or a reduced fraction `n/d` (Go: `big.Rat.RatString`),
@@ -80,7 +80,7 @@ func fontCanon(f *type1.Font) string {
 			if c.Op == type1.OpClosePath {
 				return "z"
 			}
-			return string("?mlc"[c.Op]) + "/" + join(len(c.Args), "/", func(j int) string { return num(c.Args[j]) })
+			return string("?mlc"[c.Op]) + "_" + join(len(c.Args), "_", func(j int) string { return num(c.Args[j]) })
 		}
 		return fmt.Sprintf("%s:w=%s,%s:hs=%s:vs=%s:c=%s", hx(names[i]), num(g.WidthX), num(g.WidthY),
 			join(len(g.HStem), ",", func(j int) string { return fmt.Sprint(int(g.HStem[j])) }),
@@ -108,9 +108,9 @@ def t1rJoin (sep : String) (l : List String) : String :=
 def t1rInts (l : List Int) : String := t1rJoin "," (l.map toString)
 
 def t1rCmd : T1Encode.Cmd → String
-  | .moveTo x y => s!"m/{ratStr x}/{ratStr y}"
-  | .lineTo x y => s!"l/{ratStr x}/{ratStr y}"
-  | .curveTo a b c d e f => s!"c/{ratStr a}/{ratStr b}/{ratStr c}/{ratStr d}/{ratStr e}/{ratStr f}"
+  | .moveTo x y => s!"m_{ratStr x}_{ratStr y}"
+  | .lineTo x y => s!"l_{ratStr x}_{ratStr y}"
+  | .curveTo a b c d e f => s!"c_{ratStr a}_{ratStr b}_{ratStr c}_{ratStr d}_{ratStr e}_{ratStr f}"
   | .closePath => "z"
 
 def t1rGlyph (p : T1Write.Bytes × T1Decode.Glyph) : String :=
